@@ -1005,11 +1005,13 @@ func (m *Manager) PoolTransaction(id types.TransactionID) (types.Transaction, bo
 	m.mu.Lock()
 	defer m.mu.Unlock()
 	m.revalidatePool()
+	// NOTE: indices is shared by v1 and v2 transactions, so the position may
+	// belong to the other slice
 	i, ok := m.txpool.indices[id]
-	if !ok {
+	if !ok || i >= len(m.txpool.txns) || m.txpool.txns[i].ID() != id {
 		return types.Transaction{}, false
 	}
-	return m.txpool.txns[i], ok
+	return m.txpool.txns[i], true
 }
 
 // PoolTransactions returns the transactions currently in the txpool. Any prefix
@@ -1027,11 +1029,13 @@ func (m *Manager) V2PoolTransaction(id types.TransactionID) (types.V2Transaction
 	m.mu.Lock()
 	defer m.mu.Unlock()
 	m.revalidatePool()
+	// NOTE: indices is shared by v1 and v2 transactions, so the position may
+	// belong to the other slice
 	i, ok := m.txpool.indices[id]
-	if !ok {
+	if !ok || i >= len(m.txpool.v2txns) || m.txpool.v2txns[i].ID() != id {
 		return types.V2Transaction{}, false
 	}
-	return m.txpool.v2txns[i].DeepCopy(), ok
+	return m.txpool.v2txns[i].DeepCopy(), true
 }
 
 // V2PoolTransactions returns the v2 transactions currently in the txpool. Any
